@@ -101,6 +101,14 @@ def gen_one(rng, i, tier):
         pos = pos[:1]
     if rng.random() < 0.06:
         neg = neg[:1]
+    # score arrays of a narrower dtype (float32 model outputs, integer scores): supplied thresholds and the thresholds
+    # assigned to supplied targets are float64 numbers that need not be representable in the scores' dtype
+    dtype = rng.choice(["f8"] * 7 + ["f4", "f4", "i8"])
+    if dtype == "f4":
+        pos, neg = [float(np.float32(x)) for x in pos], [float(np.float32(x)) for x in neg]
+    elif dtype == "i8":
+        k_ = rng.choice([1, 4, 16])
+        pos, neg = [float(round(x * k_)) for x in pos], [float(round(x * k_)) for x in neg]
     ep, en = gen.easy_counts(rng, stream, len(pos), len(neg))
     sc, ec = rng.choice(gen.CFGS)
     xaxis = rng.choice(BAD_AXES) if rng.random() < 0.04 else rng.choice(AXES)
@@ -110,7 +118,7 @@ def gen_one(rng, i, tier):
             "fnr": _rates(rng, kf, exact, len(pos), len(pos) + ep),
             "fpr": _rates(rng, kp, exact, len(neg), len(neg) + en),
             "thr": _thresholds(rng, kt, pos, neg),
-            "nb": nb, "aslist": rng.random() < 0.2}
+            "nb": nb, "aslist": rng.random() < 0.2, "dtype": dtype}
 
 
 def supplied(inp):
@@ -163,8 +171,13 @@ def build(inp) -> Case:
         if inp[k] is not None:
             inp[k] = [float(common.unjson_num(x)) for x in inp[k]]
     pos, neg, xaxis, nb = inp["pos"], inp["neg"], inp["xaxis"], inp["nb"]
-    s = Scores(pos, neg, nb_easy_pos=inp["ep"], nb_easy_neg=inp["en"], score_class=inp["sc"],
-               equal_class=inp["ec"])
+    npdt = {"f8": np.float64, "f4": np.float32, "i8": np.int64}[inp.get("dtype", "f8")]
+    if npdt is np.float64:
+        s = Scores(pos, neg, nb_easy_pos=inp["ep"], nb_easy_neg=inp["en"], score_class=inp["sc"],
+                   equal_class=inp["ec"])
+    else:
+        s = Scores(np.array(pos, dtype=npdt), np.array(neg, dtype=npdt), nb_easy_pos=inp["ep"], nb_easy_neg=inp["en"],
+                   score_class=inp["sc"], equal_class=inp["ec"])
     al = inp["aslist"]
 
     def kwargs(nb_):
@@ -184,6 +197,7 @@ def build(inp) -> Case:
                 nb="none" if nb is None else nb, xaxis=xaxis)
     tags = [inp["stream"], f"cfg={inp['sc']},{inp['ec']}", f"xaxis={xaxis if xaxis in AXES else 'invalid'}",
             f"nb={nb}", "supplied" if nsup else "default-path", "exact-arith" if ex else "float-arith"]
+    tags.append("dtype=" + inp.get("dtype", "f8"))
     for k in ("fnr", "fpr", "thr"):
         v = inp[k]
         tags.append(f"{k}:" + ("none" if v is None else "empty" if len(v) == 0 else "single" if len(v) == 1 else "several"))
